@@ -3,9 +3,71 @@ pub type CharSet = spec_fn(char) -> bool;
 
 /// a named item "contributes exactly the set it denotes when used alone": the sets of \d \s \w, [:alpha:], \p{..}
 /// are uninterpreted leaves of the algebra
-pub uninterp spec fn named_ascii(a: ClassAscii) -> CharSet;
+/// std's char predicates behind the [:class:] items (uninterpreted: statements about std)
+pub uninterp spec fn spec_is_alphanumeric(c: char) -> bool;
+pub uninterp spec fn spec_is_alphabetic(c: char) -> bool;
+pub uninterp spec fn spec_is_ascii(c: char) -> bool;
+pub uninterp spec fn spec_is_ascii_whitespace(c: char) -> bool;
+pub uninterp spec fn spec_is_ascii_control(c: char) -> bool;
+pub uninterp spec fn spec_is_ascii_graphic(c: char) -> bool;
+pub uninterp spec fn spec_is_lowercase(c: char) -> bool;
+pub uninterp spec fn spec_is_ascii_punctuation(c: char) -> bool;
+pub uninterp spec fn spec_is_uppercase(c: char) -> bool;
+pub uninterp spec fn spec_is_ascii_hexdigit(c: char) -> bool;
+/// the set a [:class:] item denotes is that of the predicate the code calls for its kind; [:^class:] is its complement
+pub open spec fn ascii_base(k: ClassAsciiKind, c: char) -> bool {
+    match k {
+        ClassAsciiKind::Alnum => spec_is_alphanumeric(c),
+        ClassAsciiKind::Alpha => spec_is_alphabetic(c),
+        ClassAsciiKind::Ascii => spec_is_ascii(c),
+        ClassAsciiKind::Blank => spec_is_ascii_whitespace(c),
+        ClassAsciiKind::Cntrl => spec_is_ascii_control(c),
+        ClassAsciiKind::Digit => spec_is_numeric(c),
+        ClassAsciiKind::Graph => spec_is_ascii_graphic(c),
+        ClassAsciiKind::Lower => spec_is_lowercase(c),
+        ClassAsciiKind::Print => spec_is_ascii_graphic(c),
+        ClassAsciiKind::Punct => spec_is_ascii_punctuation(c),
+        ClassAsciiKind::Space => spec_is_whitespace(c),
+        ClassAsciiKind::Upper => spec_is_uppercase(c),
+        ClassAsciiKind::Word => spec_perl_word(c),
+        ClassAsciiKind::Xdigit => spec_is_ascii_hexdigit(c),
+    }
+}
+pub open spec fn named_ascii(a: ClassAscii) -> CharSet { |c: char| ascii_base(a.kind, c) != a.negated }
 pub uninterp spec fn named_unicode(a: ClassUnicode) -> CharSet;
-pub uninterp spec fn named_perl(a: ClassPerl) -> CharSet;
+/// std's char predicates behind \\d and \\s (uninterpreted: statements about std's Unicode tables), and the predicate of \\w (std + seshat tables)
+pub uninterp spec fn spec_is_numeric(c: char) -> bool;
+/// (vstd's own contract of char::is_whitespace: the White_Space code points, written out)
+pub open spec fn spec_is_whitespace(c: char) -> bool { vstd::std_specs::char::is_white_space(c) }
+pub uninterp spec fn spec_perl_word(c: char) -> bool;
+/// \\d \\s \\w denote the sets of those predicates; \\D \\S \\W their complements
+pub open spec fn perl_base(k: ClassPerlKind, c: char) -> bool {
+    match k {
+        ClassPerlKind::Digit => spec_is_numeric(c),
+        ClassPerlKind::Space => spec_is_whitespace(c),
+        ClassPerlKind::Word => spec_perl_word(c),
+    }
+}
+pub open spec fn named_perl(a: ClassPerl) -> CharSet { |c: char| perl_base(a.kind, c) != a.negated }
+
+/// TRUSTED std fact (std's char::is_numeric: `match self { '0'..='9' => true, c => c > '\\x7f' && unicode::N(c) }`): on ASCII it is the decimal digits
+pub axiom fn axiom_is_numeric_ascii(c: char)
+    requires (c as u32) < 128
+    ensures spec_is_numeric(c) == ('0' <= c && c <= '9');
+
+/// C08: \\d and \\s restricted to ASCII are [0-9] and [\\t\\n\\x0B\\x0C\\r ]; \\D and \\S are their complements (everywhere, by definition of named_perl)
+pub proof fn lemma_perl_ascii(p: ClassPerl, c: char)
+    requires (c as u32) < 128
+    ensures
+        p.kind is Digit ==> named_perl(p)(c) == (('0' <= c && c <= '9') != p.negated),
+        p.kind is Space ==> named_perl(p)(c) == ((c == '\t' || c == '\n' || c == '\x0B' || c == '\x0C' || c == '\r' || c == ' ') != p.negated),
+{
+    axiom_is_numeric_ascii(c);
+}
+pub proof fn lemma_perl_complement(p: ClassPerl, q: ClassPerl, c: char)
+    requires p.kind == q.kind, p.negated != q.negated
+    ensures named_perl(p)(c) == !named_perl(q)(c)
+{ }
 
 /// a literal matches only itself; the verbatim `.` inside a class stands for "neither \n nor \r" (README)
 pub open spec fn lit_in(l: Literal, ch: char) -> bool {
